@@ -376,7 +376,12 @@ func (dm *ClusterDMap) LockWithTimeout(ctx context.Context, key string, timeout,
 		return nil, err
 	}
 
-	cmd := protocol.NewLock(dm.name, key, deadline.Seconds()).SetPX(timeout.Milliseconds()).Command(ctx)
+	px := timeout.Milliseconds()
+	if timeout > 0 && px == 0 {
+		// A timeout shorter than one millisecond is not "no timeout".
+		px = 1
+	}
+	cmd := protocol.NewLock(dm.name, key, deadline.Seconds()).SetPX(px).Command(ctx)
 	err = rc.Process(ctx, cmd)
 	if err != nil {
 		return nil, processProtocolError(err)
